@@ -14,9 +14,18 @@ package atree
 //
 //vh:prop C17 C05 C09 C01
 //vh:param span 24 46
+//vh:param wide 4 8
 func VH_C17_ArrayBatchDeep() {
 	vhSetThreshold(256)
-	n := 70 + vhChoose("n", vhParam("span", 24))
+	// ... plus lengths that need THREE index slabs on one level (the first of them
+	// is then out of reach of the tail rebalance)
+	span := vhParam("span", 24)
+	extra := vhParam("wide", 4)
+	ni := vhChoose("n", span+extra)
+	n := 70 + ni
+	if ni >= span {
+		n = 157 + 3*(ni-span)
+	}
 	storage := vhNewBasicStorage()
 	addr := vhAddr(1)
 	var model []uint64
@@ -46,10 +55,19 @@ func VH_C17_ArrayBatchDeep() {
 				vhReach("witness: three levels")
 			}
 		}
+		if len(root.childrenHeaders) >= 3 {
+			vhReach("witness: three index slabs on one level")
+		}
 	}
 	b, err := NewArrayWithRootID(storage, a.SlabID())
 	vhAssert(err == nil && b.Count() == uint64(n), "batch-built array reopens by its identifier")
-	switch vhChoose("then", 3) {
+	switch vhChoose("then", 5) {
+	case 3: // an insertion that splits the FIRST leaf (under the first index slab, whose right neighbour was built next to it)
+		err = a.Insert(1, vElem{tag: 7, size: vhRange32("newsz", 1, 117)})
+		model = vhInsertModel(model, 1, 7)
+	case 4: // ... and one in the middle of the stream
+		err = a.Insert(uint64(n/2), vElem{tag: 7, size: vhRange32("newsz", 1, 117)})
+		model = vhInsertModel(model, n/2, 7)
 	case 0:
 		err = a.Append(vElem{tag: 7, size: vhRange32("newsz", 1, 117)})
 		model = append(model, 7)
@@ -73,9 +91,16 @@ func VH_C17_ArrayBatchDeep() {
 //
 //vh:prop C17 C05 C09 C02
 //vh:param span 20 41
+//vh:param wide 4 8
 func VH_C17_MapBatchDeep() {
 	vhSetThreshold(256)
-	n := 60 + vhChoose("n", vhParam("span", 20))
+	span := vhParam("span", 20)
+	extra := vhParam("wide", 4)
+	ni := vhChoose("n", span+extra)
+	n := 60 + ni
+	if ni >= span {
+		n = 125 + 3*(ni-span)
+	}
 	storage := vhNewBasicStorage()
 	addr := vhAddr(1)
 	b := &vDigesterBuilder{levels: 4}
@@ -118,7 +143,15 @@ func VH_C17_MapBatchDeep() {
 	vhSameSeq(keys, want, "batch-built map keeps the source order")
 	m2, err := NewMapWithRootID(storage, m.SlabID(), b)
 	vhAssert(err == nil && m2.Count() == uint64(n), "batch-built map reopens by its identifier")
-	switch vhChoose("then", 3) {
+	switch vhChoose("then", 5) {
+	case 3: // a new smallest key: the FIRST leaf (under the first index slab) takes it and may split
+		k := vKey{id: 9999, size: 10, d: [4]uint64{500, 1, 1, 1}}
+		_, err = m.Set(vhCompare, vhHip, k, vElem{tag: 7, size: vhRange32("newsz", 1, 100)})
+		model = append([]vhKV{{key: k, val: 7}}, model...)
+	case 4: // ... and one in the middle of the stream
+		k := vKey{id: 9999, size: 10, d: [4]uint64{uint64(n/2)*1000 + 500, 1, 1, 1}}
+		_, err = m.Set(vhCompare, vhHip, k, vElem{tag: 7, size: vhRange32("newsz", 1, 100)})
+		model = append(model, vhKV{key: k, val: 7})
 	case 0:
 		k := vKey{id: 9999, size: 10, d: [4]uint64{uint64(n+1) * 1000, 1, 1, 1}}
 		_, err = m.Set(vhCompare, vhHip, k, vElem{tag: 7, size: vhRange32("newsz", 1, 100)})
